@@ -196,6 +196,7 @@ class World:
         self.instances = {}  # sid -> service instance (strong reference)
         self.accept_done = threading.Event()
         self.overlap = {"asyncio": 0, "trio": 0}
+        self.helpers = []
         self.service_classes = {}
 
     def gate(self, name):
@@ -613,6 +614,7 @@ def play(world, ops, by):
                 gc.collect()
             elif kind == "thread":
                 t = threading.Thread(target=play, args=(world, op[1], "%s/helper%d" % (by, id(op) % 1000)), daemon=True)
+                world.helpers.append(t)
                 t.start()
             elif kind == "quiesce":
                 LOG("quiescent", gen=world.gen)
@@ -696,6 +698,13 @@ def run_generation(gen_spec, index):
     thread.join(timeout=gen_spec.get("driver_join", 8))
     if thread.is_alive():
         LOG("driver-stuck", gen=index)
+    # helper threads may still be inside (injected) delays: give them time, so that a call that has not returned
+    # by now really is stuck
+    deadline = time.monotonic() + gen_spec.get("helper_join", 6)
+    for helper in list(world.helpers):
+        helper.join(timeout=max(0.0, deadline - time.monotonic()))
+        if helper.is_alive():
+            LOG("helper-stuck", gen=index)
     LOG("generation-end", gen=index, running_flag=world.runner.running.is_set())
 
 
